@@ -5,7 +5,7 @@
    without '\n'; the reader follows ANY schedule [sch] of read sizes. *)
 From Coq Require Import ZArith List Bool.
 From RM Require Import Base.Word C08.Model C11.Model C09.Model C09.Grammar C09.Driver C09.Proofs C09.ProofsBytes C09.ProofsFinish C09.ProofsFinal C09.ProofsTrace C09.Circular C09.ProofsCircular C09.ProofsLines C09.ProofsTable.
-From RM Require C09.Pins C09.PinsMem C08.Proofs C09.PinsNum Gen.C09Numeric C09.ProofsText C09.ProofsRecord C09.ProofsRecord2 C09.ProofsRecord3.
+From RM Require C09.Pins C09.PinsMem C08.Proofs C09.PinsNum Gen.C09Numeric C09.ProofsText C09.ProofsRecord C09.ProofsRecord2 C09.ProofsRecord3 C09.ProofsRecord4.
 Import ListNotations.
 Open Scope Z_scope.
 
@@ -682,3 +682,36 @@ Example c09_nonvacuous_func_record :
    p_func (to_rle [70; 85; 78; 67; 32; 109; 49; 48; 48; 48; 32; 49; 48; 32; 52; 32; 102]))
   = (PFail, PFail).
 Proof. split; [exact ProofsRecord3.func_line_example|vm_compute; reflexivity]. Qed.
+
+(* INFO URL, INFO and MODULE records as declarative grammars over BYTES, both directions.  A MODULE field (os, cpu) is any
+   run of bytes other than ' ' '\r' '\n' that is well-formed UTF-8 (a tab is part of the field), the separator after it is a
+   ' ' followed by spaces / tabs; the id is one or more hex digits (no length limit); the file name is the rest of the line.
+   With these, every top-level record kind except STACK WIN - and every sub-line kind except INLINE - has a declarative
+   counterpart proved equal to the recogniser the correspondence run compares with the code. *)
+Theorem c09_info_module_record_grammar :
+  forall s : rle,
+    (forall it, p_info_url s = POk it ->
+        exists n u, it = IUrl n /\ ProofsRecord4.info_url_line (PinsNum.expand s) u /\ PinsNum.expand n = u) /\
+    (forall u, ProofsRecord4.info_url_line (PinsNum.expand s) u -> exists n, p_info_url s = POk (IUrl n) /\ PinsNum.expand n = u) /\
+    (forall it, p_info s = POk it -> it = IInfo /\ ProofsRecord4.info_line (PinsNum.expand s)) /\
+    (ProofsRecord4.info_line (PinsNum.expand s) -> p_info s = POk IInfo) /\
+    (forall it, p_module s = POk it ->
+        exists i f id file, it = IModule i f /\ ProofsRecord4.module_line (PinsNum.expand s) id file /\
+                            PinsNum.expand i = id /\ PinsNum.expand f = file) /\
+    (forall id file, ProofsRecord4.module_line (PinsNum.expand s) id file ->
+        exists i f, p_module s = POk (IModule i f) /\ PinsNum.expand i = id /\ PinsNum.expand f = file).
+Proof.
+  intros s. split; [apply ProofsRecord4.info_url_sound|]. split; [apply ProofsRecord4.info_url_complete|].
+  split; [apply ProofsRecord4.info_sound|]. split; [apply ProofsRecord4.info_complete|].
+  split; [apply ProofsRecord4.module_sound|apply ProofsRecord4.module_complete].
+Qed.
+Print Assumptions c09_info_module_record_grammar.
+
+(* non-vacuity: "MODULE Linux x86 ABC1 a.pdb\r" has the shape; a tab instead of the space after the os field makes the tab part
+   of the field ("Linux\tx86" is the os, "ABC1" the cpu, "a.pdb" is not a hex id): PFail *)
+Example c09_nonvacuous_module_record :
+  ProofsRecord4.module_line
+    (PinsNum.expand (to_rle [77; 79; 68; 85; 76; 69; 32; 76; 105; 110; 117; 120; 32; 120; 56; 54; 32; 65; 66; 67; 49; 32; 97; 46; 112; 100; 98; 13]))
+    [65; 66; 67; 49] [97; 46; 112; 100; 98] /\
+  p_module (to_rle [77; 79; 68; 85; 76; 69; 32; 76; 105; 110; 117; 120; 9; 120; 56; 54; 32; 65; 66; 67; 49; 32; 97; 46; 112; 100; 98; 13]) = PFail.
+Proof. split; [exact ProofsRecord4.module_line_example|vm_compute; reflexivity]. Qed.
